@@ -63,7 +63,8 @@ type Case struct {
 	Rand    [][]byte           `json:"rand,omitempty"`    // arbitrary inputs decoded into T
 	Flips   [][2]int           `json:"flips,omitempty"`   // (position permille, new byte) applied to the valid encoding, cumulatively
 	Trail   []byte             `json:"trail,omitempty"`
-	RK      int                `json:"rk,omitempty"` // io.Reader implementation given to Decoder probes
+	RK      int                `json:"rk,omitempty"`  // io.Reader implementation given to Decoder probes
+	Sel     int                `json:"sel,omitempty"` // fuzz: index into fuzzTargets
 	Ops     []int              `json:"ops,omitempty"`
 	Bytes   []byte             `json:"bytes,omitempty"`
 }
@@ -270,6 +271,8 @@ func runProbes(req *Request, progress func(*ProbeInfo)) (resp *Response) {
 		e.target()
 	case "readerops":
 		e.readerOps()
+	case "fuzz":
+		e.fuzzCase()
 	default:
 		resp.Fail = &evid.Failure{Oracle: "harness", Observed: "unknown kind " + req.Case.Kind, Class: "harness"}
 	}
